@@ -64,6 +64,9 @@ def series(case):
         if peak > 0:
             g = peak / lv
             a = np.round(a / g) * g  # symmetric grid containing 0: zero runs, ties and plateaus
+    p2 = case.get("pow2")
+    if p2 and spec.get("as") != "int":
+        a = a * 2.0 ** p2  # exact rescaling: the answer does not depend on the unit of the series
     a = np.where(np.abs(a) < FLUSH, 0.0, a)
     if spec.get("as") == "int":
         peak = float(np.max(np.abs(a)))
@@ -101,6 +104,8 @@ def _rec_cases(draw, max_n=5000):
         case["offset"] = draw(st.sampled_from([-1.5, -0.75, -0.5, -0.25, -0.125, 0.125, 0.25, 0.5, 0.75, 1.5]))
     if draw(st.integers(0, 3)) == 0:
         case["levels"] = draw(st.integers(2, 12))
+    if draw(st.integers(0, 5)) == 0:
+        case["pow2"] = draw(st.sampled_from([-300, -200, -60, -30, 60, 200, 300]))
     return case
 
 
@@ -118,6 +123,8 @@ def _classify(ctx, case, a):
             ctx.cls("offset")
         if case.get("levels"):
             ctx.cls("coarse-grid")
+        if case.get("pow2") and case["rec"].get("as") != "int":
+            ctx.cls("rescaled")
     elif "exc" in case:
         ctx.cls("kind=excursions")
     ctx.cls(gen.size_class(len(a)))
@@ -161,9 +168,11 @@ def _classify(ctx, case, a):
 
 def _ints(ctx, out, what):
     out = np.asarray(out)
-    ctx.check(out.ndim == 1, "%s: result is not one-dimensional: shape %s" % (what, out.shape))
-    ctx.check(out.size == 0 or np.issubdtype(out.dtype, np.integer), "%s: indices have dtype %s" % (what, out.dtype))
-    return [int(i) for i in out]
+    if out.ndim != 1:
+        ctx.fail("%s: result is not one-dimensional: shape %s" % (what, out.shape))
+    if out.size and out.dtype.kind not in "iu":
+        ctx.fail("%s: indices have dtype %s" % (what, out.dtype))
+    return out.tolist()
 
 
 def _sh(lst, n=12):
@@ -175,11 +184,13 @@ def _check_crossings(ctx, a, arg, default_too=False):
     for keep in (False, True):
         got = _ints(ctx, ctx.lib(pc.get_zero_crossings_array_indices, arg, keep_adj_zeros=keep), "crossings")
         want = ref.zero_crossings(a, keep)
-        ctx.check(got == want, "zero crossings (keep_adj_zeros=%s): got %s, expected %s" % (keep, _sh(got), _sh(want)))
+        if got != want:
+            ctx.fail("zero crossings (keep_adj_zeros=%s): got %s, expected %s" % (keep, _sh(got), _sh(want)))
     if default_too:
         got = _ints(ctx, ctx.lib(pc.get_zero_crossings_array_indices, arg), "crossings")
         want = ref.zero_crossings(a, False)
-        ctx.check(got == want, "zero crossings (defaults): got %s, expected %s" % (_sh(got), _sh(want)))
+        if got != want:
+            ctx.fail("zero crossings (defaults): got %s, expected %s" % (_sh(got), _sh(want)))
 
 
 def _check_switched(ctx, a, arg):
@@ -194,7 +205,8 @@ def _check_switched(ctx, a, arg):
         if not (tie or end_zero):
             raise HarnessError("switched-peak predicate accepts %r but the canonical reference is %r for %r" % (got, canon, v[:40]))
         ctx.cls("non-canonical-choice")
-    ctx.check(msg is None, "switched peaks: %s; got %s, canonical reference %s" % (msg, _sh(got), _sh(canon)))
+    if msg is not None:
+        ctx.fail("switched peaks: %s; got %s, canonical reference %s" % (msg, _sh(got), _sh(canon)))
     return got
 
 
@@ -244,12 +256,12 @@ def exhaustive(case, ctx):
 
 @clause(CLAUSES, "random", _cases(), quick=500, thorough=3000,
         rule="records of all kinds (n 2..5000; ndarray / int / list), optionally shifted by a fraction of the peak (non-zero starts, "
-             "long one-signed stretches) or rounded to a symmetric coarse grid (zero runs, ties), plus structured series of 1-8 "
+             "long one-signed stretches), rounded to a symmetric coarse grid (zero runs, ties) or rescaled by 2^k (|k| <= 300), plus structured series of 1-8 "
              "excursions with 3-9 dyadic levels each and zero runs between; "
              "non-trivial = some excursion's largest |value| is not at its first reported peak",
         oracle="reference model for crossings (exact), statement predicates + canonical reference for switched peaks; "
                "object-level wrappers agree with the array functions; input unchanged",
-        require={"nonzero-start": 0.40, "3+levels-excursion": 0.5, "zero-turning-point": 0.03, "n>512": 0.10},
+        require={"nonzero-start": 0.40, "3+levels-excursion": 0.5, "zero-turning-point": 0.03, "n>512": 0.10, "rescaled": 0.04},
         min_nontrivial=0.3)
 def random(case, ctx):
     a, arg = series(case)
@@ -269,12 +281,12 @@ def random(case, ctx):
 # 3. tolerance
 
 
-def kf1_matcher(a, tol, extras):
+def kf1_matcher(a, tol, extras, local_peaks=None):
     """C12-KF1 matcher: every index of result(tol) absent from result(0) precedes the first reported local peak
     with |value| >= tol (the opening group of get_switched_peak_array_indices)."""
     v = [float(x) for x in a]
     first_big = len(v)
-    for i in ref.local_peaks(v)[0]:
+    for i in (local_peaks if local_peaks is not None else ref.local_peaks(v)[0]):
         if abs(v[i]) >= tol:
             first_big = i
             break
@@ -306,35 +318,50 @@ def _tol_cases(draw):
     return case
 
 
-def _check_tol(ctx, a, arg, tol):
+def _tol_base(ctx, a, arg):
+    """Zero-tolerance results of both functions (computed once per series)."""
+    base = {}
+    for keep in (False, True):
+        base[keep] = _ints(ctx, ctx.lib(pc.get_zero_crossings_array_indices, arg, keep_adj_zeros=keep, tol=0.0), "crossings")
+    base["const"] = ref.is_constant(a)
+    if not base["const"]:
+        base["sw"] = _ints(ctx, ctx.lib(pc.get_switched_peak_array_indices, arg, tol=0.0), "switched peaks")
+        base["lp"] = ref.local_peaks(a.tolist())[0]
+    return base
+
+
+def _check_tol(ctx, a, arg, tol, base=None):
     """Both functions at tolerance `tol` against their own zero-tolerance results."""
+    base = base or _tol_base(ctx, a, arg)
     pruned = False
     for keep in (False, True):
-        z0 = _ints(ctx, ctx.lib(pc.get_zero_crossings_array_indices, arg, keep_adj_zeros=keep, tol=0.0), "crossings")
+        z0 = base[keep]
         zt = _ints(ctx, ctx.lib(pc.get_zero_crossings_array_indices, arg, keep_adj_zeros=keep, tol=tol), "crossings tol>0")
-        ctx.check(ref.is_subsequence(zt, z0), "crossings with tol=%r (keep_adj_zeros=%s) %s are not a subsequence of the "
-                  "zero-tolerance result %s" % (tol, keep, _sh(zt), _sh(z0)))
+        if not ref.is_subsequence(zt, z0):
+            ctx.fail("crossings with tol=%r (keep_adj_zeros=%s) %s are not a subsequence of the zero-tolerance result %s" % (
+                tol, keep, _sh(zt), _sh(z0)))
         if len(zt) < len(z0):
             pruned = True
             ctx.cls("zc-pruned")
     ctx.raises(Exception, pc.get_zero_crossings_array_indices, arg, tol=-tol)
-    if ref.is_constant(a):
+    if base["const"]:
         return pruned
-    s0 = _ints(ctx, ctx.lib(pc.get_switched_peak_array_indices, arg, tol=0.0), "switched peaks")
+    s0 = base["sw"]
     s_t = _ints(ctx, ctx.lib(pc.get_switched_peak_array_indices, arg, tol=tol), "switched peaks tol>0")
     for a_, b_ in zip(s_t[:-1], s_t[1:]):
-        ctx.check(a_ < b_, "switched peaks with tol=%r not strictly ascending: %s" % (tol, _sh(s_t)))
+        if not a_ < b_:
+            ctx.fail("switched peaks with tol=%r not strictly ascending: %s" % (tol, _sh(s_t)))
     if len(s_t) < len(s0):
         pruned = True
         ctx.cls("sw-pruned")
     in0 = set(s0)
     extras = [i for i in s_t if i not in in0]
     if extras:
-        match, first_big = kf1_matcher(a, tol, extras)
+        match, first_big = kf1_matcher(a, tol, extras, base["lp"])
         if match and ctx.kf("C12-KF1"):
             # relaxed bound: the extras must still be reported local peaks; everything from the first big peak on is strict
             ctx.cls("kf1-match")
-            lp = set(ref.local_peaks(a.tolist())[0])
+            lp = set(base["lp"])
             ctx.check(all(i in lp for i in extras), "switched peaks with tol=%r: extra indices %s are not local peaks" % (tol, _sh(extras)))
         else:
             ctx.fail("switched peaks with tol=%r: %s is not a subsequence of the zero-tolerance result %s (extra %s; first local "
@@ -379,12 +406,13 @@ def _tol_enum(tier, shard, nshards):
                   "non-trivial = some tolerance removes something",
              oracle="metamorphic subsequence relation as clause tol (addition to DESIGN: the integer alphabet reaches C12-KF1 at tol=2.5)",
              exhaustive_note="all sequences over {-3..3} of length 2..6 (2..5 quick) x tol in {0.5,1,1.5,2.5}; sharded by index % nshards",
-             min_nontrivial=0.3)
+             min_nontrivial=0.3, quick_shards=2)
 def tol_exhaustive(case, ctx):
     a, arg = series(case)
     ctx.cls("nonzero-start" if a[0] != 0 else "zero-start")
     pruned = False
+    base = _tol_base(ctx, a, arg)
     for t in ENUM_TOLS:
-        if _check_tol(ctx, a, arg, t):
+        if _check_tol(ctx, a, arg, t, base):
             pruned = True
     ctx.nt(pruned)
